@@ -62,6 +62,15 @@ def gen_instance(rng, tier, kind=None):
         cs = [(l, r, g * k) for l, r, g in cs]
         if wstyle in ("one", "mixed"):
             ws = [w * rng.choice([1e10, 1e8]) for w in ws]
+    elif rng.random() < 0.05:
+        # targets far from the origin that conflict by little (raw timestamps: 1.7e9 s with events a few hundredths apart), modest weights: a
+        # tolerance that grows with the magnitude of the positions would swallow such conflicts.  (Stiff variables are left out here: with
+        # weights of 1e10 at such offsets the unchanged solver oscillates — known finding F5.)
+        k = rng.choice([0.01, 0.02, 0.1])
+        base = rng.choice([1e6, 1e8, 1.7e9])
+        ds = [base + d * k for d in ds]
+        cs = [(l, r, g * k) for l, r, g in cs]
+        ws = [min(w, 10) for w in ws]
     inst = {"kind": kind, "d": ds, "w": ws, "s": ss, "cs": cs}
     if rng.random() < 0.2 and n >= 2:
         # the SAME solver object is given new desired positions (setDesiredPositions) and solved again, once or twice: the incremental use
@@ -309,9 +318,61 @@ def one_case(inst, rep):
     return qp_line(final_inst(inst), x, cost, xs, lam, unsat), meta
 
 
+def f5_instance(ex):
+    """the instance removeOverlap builds for the listed example: wall, labels in the order of their positions, wall"""
+    labels = sorted(ex["labels"])
+    d = [ex["walls"][0]] + [p for p, _w in labels] + [ex["walls"][1]]
+    w = [ex["wall_weight"]] + [1] * len(labels) + [ex["wall_weight"]]
+    cs = [(0, 1, labels[0][1] / 2)]
+    for i in range(1, len(labels)):
+        cs.append((i, i + 1, (labels[i - 1][1] + labels[i][1]) / 2 + ex["nodeSpacing"]))
+    cs.append((len(labels), len(labels) + 1, labels[-1][1] / 2))
+    return {"d": d, "w": w, "s": [1] * len(d), "cs": cs}
+
+
+def f5_probe(known, rep):
+    """known finding F5 (known-findings.json): does Solver.solve still oscillate on the listed instance, and with the listed signature?
+    Returns None (it ends now: nothing to report), "known" (signature as listed) or a description of what differs (a new violation)."""
+    inst = f5_instance(known["example"])
+    vpsc, vs, cs = build(inst, False)
+    solver = vpsc.Solver(vs, cs)
+    signal.signal(signal.SIGALRM, _alarm)
+    signal.alarm(5)
+    try:
+        try:
+            solver.solve()
+            return None, inst
+        finally:
+            signal.alarm(0)
+    except Timeout:
+        pass
+    vpsc, vs, cs = build(inst, False)
+    solver = vpsc.Solver(vs, cs)
+    costs = []
+    for _ in range(24):
+        solver.satisfy()
+        costs.append(solver.cost())
+        for c in cs:
+            if c.right.position() - c.left.position() < c.gap - 1e-6:
+                return "a satisfy() pass left a constraint violated", inst
+    tail = costs[-20:]
+    cyc = all(tail[i] == tail[i + 2] for i in range(len(tail) - 2)) and abs(tail[0] - tail[1]) > 1e-4
+    noise = abs(tail[0] - tail[1]) <= 1e-6 * max(abs(tail[0]), abs(tail[1]))
+    if cyc and noise:
+        rep.count("F5-cost-2-cycle")
+        return "known", inst
+    return "solve() does not end, and the costs of successive passes are not a 2-cycle of rounding noise: %r" % (tail[:6],), inst
+
+
 def body(tier, seed, rep, only_prop=False, scale=1):
     rng = rng_for(seed, "c05")
     known = {k["id"]: k for k in load_known()["known"] if k["property"] == "C05"}
+    if "F5" in known:
+        what, inst5 = f5_probe(known["F5"], rep)
+        if what == "known":
+            rep.known_seen["F5"] = known["F5"]["message"]
+        elif what is not None:
+            rep.prop_fail.append(("C05 (termination): " + what, {"case": {"inst": inst5, "kind": "f5-probe"}}))
     cs = []
     for inst in (D1_WITNESS, F1_WITNESS):
         r = one_case(inst, rep)
